@@ -344,6 +344,9 @@ class Discharger:
             fam = ['timezone']
         elif p.endswith('regex_tokinizer::field::get_field_type'):
             fam = ['field']
+        elif body.kind == 'closure' and body.rec.get('parent') in self.facts.bodies and body.rec.get('parent') != p:
+            # a closure of a reader (an iterator chain over the captures): the captures are those of the reader's family
+            fam = self.family_of(self.facts.bodies[body.rec['parent']])
         self._fam_cache[p] = fam
         return fam
 
@@ -927,6 +930,23 @@ class Discharger:
                     continue
                 if t not in out:
                     out.append(t)
+        # what the decisions imply: a flag that was merged from several definitions (a bool, an Option, a small enum such as
+        # `Direction::Down`) and tested here stands for the conditions of the one definition that can have the tested value
+        from .facts import implied, norm_cond
+        for shallow in ('mut', False):
+            b._shallow = shallow
+            try:
+                cs3 = b.conditions(ob.bid)
+                for (_, d, v) in cs3:
+                    try:
+                        for d2, v2 in implied(b, *norm_cond(d, v)):
+                            t = cond_str(d2, v2)
+                            if t not in out:
+                                out.append(t)
+                    except RecursionError:
+                        continue
+            finally:
+                b._shallow = False
         return out + [c for c in b.cond_text(ob.bid) if c not in out]
 
     def index_guard(self, ob, pos_only=False, allow_equal=False):
